@@ -30,8 +30,8 @@ def dump_mir(repo, workdir):
     out = os.path.join(workdir, "rpm.mir")
     env = _env()
     env["CARGO_TARGET_DIR"] = tdir
-    # signature-pgp (which implies signature-meta and chrono) so that the signing/verifying code is part of the dump
-    cmd = ["cargo", "+nightly", "rustc", "--offline", "--lib", "--no-default-features", "--features", "signature-pgp", "--", "-Zunpretty=mir",
+    # default features (signature-pgp, gzip, zstd, xz) plus bzip2, so that the signing/verifying code and every compressor arm are part of the dump
+    cmd = ["cargo", "+nightly", "rustc", "--offline", "--lib", "--features", "bzip2-compression", "--", "-Zunpretty=mir",
            "-C", "debug-assertions=off", "-C", "overflow-checks=on"]
     with open(out, "w") as fo, open(out + ".err", "w") as fe:
         p = subprocess.run(cmd, cwd=repo, env=env, stdout=fo, stderr=fe, timeout=1800)
